@@ -43,8 +43,12 @@ static int build_exts(uint8_t *ex, size_t *el, size_t max, const KV *kv)
 		else if (!strcmp(t, "eku")) { int kp[2] = { OID_kp_server_auth, OID_kp_client_auth }; rc = x509_exts_add_ext_key_usage(ex, el, max, crit, kp, 2); }
 		else if (!strcmp(t, "ski")) rc = x509_exts_add_subject_key_identifier_ex(ex, el, max, crit, &ksub);
 		else if (!strcmp(t, "aki")) rc = x509_exts_add_default_authority_key_identifier(ex, el, max, &kiss);
-		else if (!strcmp(t, "crldp")) rc = x509_exts_add_crl_distribution_points_ex(ex, el, max, crit, OID_ce_crl_distribution_points, "http://example.org/ca.crl", 25, NULL, 0);
+		else if (!strcmp(t, "crldp")) rc = x509_exts_add_crl_distribution_points_ex(ex, el, max, OID_ce_crl_distribution_points, crit, "http://example.org/ca.crl", 25, NULL, 0);
 		else if (!strcmp(t, "pc")) rc = x509_exts_add_policy_constraints(ex, el, max, crit, 1, 2);
+		else if (!strncmp(t, "san", 3) || !strncmp(t, "ian", 3)) {      // subject / issuer alternative name with one dNSName of the given length (x509_exts_add_sequence path)
+			static uint8_t gns[2048]; static char nm[1600]; size_t gl = 0; long n = atol(t + 3); if (n < 1) n = 1; if (n > 1500) n = 1500; memset(nm, 'a', (size_t)n); nm[n] = 0;
+			rc = x509_general_names_add_dns_name(gns, &gl, sizeof gns, nm);
+			if (rc == 1) rc = t[0] == 's' ? x509_exts_add_subject_alt_name(ex, el, max, crit, gns, gl) : x509_exts_add_issuer_alt_name(ex, el, max, crit, gns, gl); }
 	}
 	return rc;
 }
@@ -61,7 +65,7 @@ int main(int argc, char **argv)
 		size_t sl, sidl, dl; uint8_t *serial = kv_hex(&kv, "serial", &sl), *sid = kv_hex(&kv, "sid", &sidl), *der = kv_hex(&kv, "der", &dl);
 		if (!sidl) { sid = (uint8_t *)SM2_DEFAULT_ID; sidl = SM2_DEFAULT_ID_LENGTH; }
 		if (!strcmp(kind, "cert") || !strcmp(kind, "req") || !strcmp(kind, "crl")) {
-			uint8_t iss[512], sub[512], ex[1024], out[8192], *p = out; size_t il, sbl, el = 0, ol = 0; int rc;
+			uint8_t iss[512], sub[512], ex[4096], out[16384], *p = out; size_t il, sbl, el = 0, ol = 0; int rc;
 			rc = build_name(iss, &il, sizeof iss, &kv, "i"); if (rc == 1) rc = build_name(sub, &sbl, sizeof sub, &kv, "");
 			if (rc == 1) rc = build_exts(ex, &el, sizeof ex, &kv);
 			time_t nb = tv(&kv, "nb", "nbs"), na = tv(&kv, "na", "nas");
@@ -91,6 +95,9 @@ int main(int argc, char **argv)
 				else prc = x509_crl_get_details(out, ol, &ver, &alg1, &pi, &pil, &t1, &t2, &prev, &prevl, &pe, &pel, &alg2, &sig, &sigl);
 				uint8_t ppk[64] = {0}; if (prc == 1 && strcmp(kind, "crl")) sm2_z256_point_to_bytes(&pub.public_key, ppk);
 				vt_begin("Parse"); vt_int("rc", prc); vt_int("version", ver); vt_bytes("serial", ps, psl); vt_bytes("issuer", pi, pil); vt_bytes("subject", psub, psubl); vt_time("nb", t1); vt_time("na", t2);
+				// the library's own walk over the extensions it handed back
+				{ long walked = 0; const uint8_t *wp = pe; size_t wl = pel; while (wl && walked >= 0) { int xo, xc; uint32_t nodes[32]; size_t nn; const uint8_t *xv; size_t xvl;
+					if (x509_ext_from_der(&xo, nodes, &nn, &xc, &xv, &xvl, &wp, &wl) != 1) walked = -1; else walked++; } vt_int("extwalk", walked); }
 				vt_bytes("exts", pe, pel); vt_bytes("pub", ppk, strcmp(kind, "crl") ? 64 : 0); vt_bytes("revoked", prev, prevl); vt_int("alg1", alg1); vt_int("alg2", alg2); vt_end();
 			}
 		} else if (!strcmp(kind, "verify")) {
